@@ -136,8 +136,15 @@ def run_model(entry, inputs, timeout=900):
     """inputs: list of python sx values; returns list of decoded results"""
     exe = os.path.join(RUNNER, "modelrun")
     data = "\n".join(sxp.dumps([entry, x]) for x in inputs) + "\n"
+    def big_stack():
+        # the extracted code recurses over lists structurally: megabyte payloads need more than the default 8 MB stack
+        import resource
+        try:
+            resource.setrlimit(resource.RLIMIT_STACK, (resource.RLIM_INFINITY, resource.RLIM_INFINITY))
+        except (ValueError, OSError):
+            pass
     try:
-        p = subprocess.run([exe], input=data.encode(), capture_output=True, timeout=timeout)
+        p = subprocess.run([exe], input=data.encode(), capture_output=True, timeout=timeout, preexec_fn=big_stack)
     except subprocess.TimeoutExpired:
         return None, "model runner timeout"
     if p.returncode != 0:
@@ -390,13 +397,21 @@ def run_prop(prop, tier, seed, replay=None):
             broken.append("model runner failed: " + merr)
         else:
             # the first cases, up to 40 and up to a size that vm_compute's literal parsing handles in seconds
-            k, budget = 0, 60000
-            while k < min(40, len(cases)):
-                budget -= len(sxp.dumps(minputs[k])) + len(sxp.dumps(mouts[k]))
-                if budget < 0 and k >= 3:
+            picked, budget = [], 60000
+            for k in range(len(cases)):
+                size = len(sxp.dumps(minputs[k])) + len(sxp.dumps(mouts[k]))
+                if size > 100000:
+                    continue            # a literal of that size is beyond coqc; the extracted runner alone evaluates it
+                if budget - size < 0 and len(picked) >= 3:
                     break
-                k += 1
-            okx, msg = vm_crosscheck(prop.entry, minputs[:k], mouts[:k], prop.id)
+                budget -= size
+                picked.append(k)
+                if len(picked) >= 40:
+                    break
+            if picked:
+                okx, msg = vm_crosscheck(prop.entry, [minputs[k] for k in picked], [mouts[k] for k in picked], prop.id)
+            else:
+                okx, msg = True, "skipped: every case is too large for a Coq literal"
             res.notes.append("vm_compute cross-check: " + msg)
             if not okx:
                 broken.append(msg)
